@@ -48,6 +48,17 @@ CHECKS = {
                 "interleavings, not enumerated exhaustively on the real code.",
         "technique": "hook-recorded linearization points validated by TLC against the sequential TLA+ model; PlusCal engine protocol model checked by TLC; forced interleavings replayed on real goroutines",
     },
+    "C05": {
+        "level": "fault_enumeration",
+        "text": "The system call sequence of every commit is recorded from the real binary with strace and becomes the program of CrashFS.tla, on which TLC explores every "
+                "crash point x every permitted loss and every kill point (Load old or new; new once returned); a counterexample is materialised and given to the real "
+                "FileStore.Load. On the real process every relevant system call of every commit is once a kill point (real Load must be the committed or in-flight state, "
+                "a follow-up commit must succeed and reload) and once a failing call (commit reports the error, visible state stays, later commits work, file loads); the "
+                "engine-level grid fails every Store call before/after the inner write in session and auto-commit mode.",
+        "note": "Power loss is decided on CrashFS.tla's stated POSIX model instantiated with the recorded program, not on a disk; kill and failing calls are decided on the "
+                "real process (strace injection, per-thread call counting; the writer pins its goroutine to the main thread).",
+        "technique": "TLA+ crash model of the file system checked by TLC with the strace-recorded syscall program; kill/error injection at every recorded syscall of the real process",
+    },
     "C06": {
         "level": "model_checking",
         "text": "Random histories run on a FileStore with close/reopen points; every reload is recorded (state, index definitions and listings, complete change log, "
